@@ -17,7 +17,19 @@ GenKeys == {<<1>>, <<1, 2>>, <<1, 2, 1>>, <<2, 1>>, <<2, 2>>}
 KMax == <<Big>>
 KOver == <<Big, 8>>
 KEmpty == <<>>
-AllKeyArgs == GenKeys \cup {KMax, KOver, KEmpty}
+\* byte-boundary material.  The harness' "binary" concretisation renders symbol 1 as 0x00, 2 as 'k', 3 as 'm', 10 as 0xFE,
+\* 11 as 0xFF (one byte each, in this order; Big = 4096 x 0xF0 sorts between 3 and 10), so these are "k", "k\x00", "k\xfe",
+\* "k\xff", "k\xff\xff", "k\xff\x00", "\xff", "\xff\xff", "m\xff", "\x00": keys ending in 0x00 / 0xFE / 0xFF, keys that are
+\* proper prefixes of other keys.  Order, prefix and suffix of the symbol sequences ARE bytes.Compare / HasPrefix / HasSuffix
+\* of the rendered keys.
+EdgeKeys == {<<1>>, <<2>>, <<2, 1>>, <<2, 10>>, <<2, 11>>, <<2, 11, 11>>, <<2, 11, 1>>, <<11>>, <<11, 11>>, <<3, 11>>}
+AllKeyArgs == GenKeys \cup EdgeKeys \cup {KMax, KOver, KEmpty}
+\* start / end: absent, "k", "k\xfe", "k\xff", "k\xff\xff", "m" (the successor of the prefix "k"), "\xff", "k\x00" - the product
+\* has start = end and start > end; prefix / suffix: absent, "k", "k\xff", "\xff", "\xff\xff", "\x00", one longer than every
+\* key, "k\xfe"
+EdgeBoundSeq == << <<>>, <<2>>, <<2, 10>>, <<2, 11>>, <<2, 11, 11>>, <<3>>, <<11>>, <<2, 1>> >>
+EdgeAffixSeq == << <<>>, <<2>>, <<2, 11>>, <<11>>, <<11, 11>>, <<1>>, <<2, 11, 11, 11>>, <<2, 10>> >>
+EdgeLimitSeq == <<0, 2>>
 BoundSeq == << <<>>, <<1>>, <<1, 1>>, <<1, 2>>, <<2>>, <<2, 1>>, <<Big>> >>
 AffixSeq == << <<>>, <<1>>, <<2>>, <<1, 2>>, <<2, 1>> >>
 LimitSeq == <<0, 1, 2, 3, -1>>
@@ -39,14 +51,14 @@ Rec(rq) == [rq |-> rq,
             ro |-> readOnly']
 Step(rq) == Do(rq) /\ h' = Append(h, Rec(rq))
 
-ScriptIds == CASE Role = "replica" -> {14, 15} [] Role = "primary" -> {16} [] OTHER -> 1..13
+ScriptIds == CASE Role = "replica" -> {14, 15} [] Role = "primary" -> {16} [] OTHER -> (1..13) \cup {17, 18, 19}
 GInit == Init /\ h = <<>> /\ phase = "run" /\ sid \in (IF Flavour = "script" THEN ScriptIds ELSE {0})
 
 -----------------------------------------------------------------------------
 (* random requests *)
 
-RKey == {IF r <= 7 THEN Rnd(GenKeys) ELSE Rnd({KMax, KOver, KEmpty}) : r \in {R(10)}}
-RGoodKey == {IF r <= 9 THEN Rnd(GenKeys) ELSE KMax : r \in {R(10)}}
+RKey == {IF r <= 5 THEN Rnd(GenKeys) ELSE IF r <= 8 THEN Rnd(EdgeKeys) ELSE Rnd({KMax, KOver, KEmpty}) : r \in {R(11)}}
+RGoodKey == {IF r <= 6 THEN Rnd(GenKeys) ELSE IF r <= 9 THEN Rnd(EdgeKeys) ELSE KMax : r \in {R(10)}}
 RVal == {IF r <= 7 \/ SpecialVals = {} THEN Rnd(ValArgs \ SpecialVals) ELSE Rnd(SpecialVals) : r \in {R(10)}}
 RGoodVal == {Rnd(StoreVals \ {"VMAX"})}
 OpenHandles == {x \in 1..MaxTx : Open(x)}
@@ -54,10 +66,12 @@ OpenHandles == {x \in 1..MaxTx : Open(x)}
 RHandle == IF OpenHandles # {} THEN {IF r <= 17 THEN Rnd(OpenHandles) ELSE Rnd(0..nh) : r \in {R(20)}}
            ELSE {Rnd(0..nh) : r \in {R(5)} \ {2, 3, 4, 5}}
 \* C16 is about WHETHER reads are served, not about scan options (C19): there a scan has a range or affixes, not both
-RScanW(w) == {[s |-> BoundSeq[a], e |-> BoundSeq[b], p |-> AffixSeq[c], x |-> AffixSeq[d], l |-> LimitSeq[e]] :
-            a \in {IF R(2) = 1 \/ w = 2 THEN 1 ELSE R(Len(BoundSeq))}, b \in {IF R(2) = 1 \/ w = 2 THEN 1 ELSE R(Len(BoundSeq))},
-            c \in {IF R(2) = 1 \/ w = 1 THEN 1 ELSE R(Len(AffixSeq))}, d \in {IF R(2) = 1 \/ w = 1 THEN 1 ELSE R(Len(AffixSeq))},
-            e \in {R(Len(LimitSeq))}}
+RScanFrom(w, B, A, L) ==
+          {[s |-> B[a], e |-> B[b], p |-> A[c], x |-> A[d], l |-> L[e]] :
+            a \in {IF R(2) = 1 \/ w = 2 THEN 1 ELSE R(Len(B))}, b \in {IF R(2) = 1 \/ w = 2 THEN 1 ELSE R(Len(B))},
+            c \in {IF R(2) = 1 \/ w = 1 THEN 1 ELSE R(Len(A))}, d \in {IF R(2) = 1 \/ w = 1 THEN 1 ELSE R(Len(A))},
+            e \in {R(Len(L))}}
+RScanW(w) == UNION {IF g = 1 THEN RScanFrom(w, BoundSeq, AffixSeq, LimitSeq) ELSE RScanFrom(w, EdgeBoundSeq, EdgeAffixSeq, EdgeLimitSeq) : g \in {R(2)}}
 RScan == UNION {RScanW(w) : w \in {IF Flavour = "c16" THEN R(2) ELSE 0}}
 BOp(t, k, v) == [t |-> t, k |-> k, v |-> v]
 ROp(good) == {BOp(IF r = 1 THEN "del" ELSE "put", k, v) : r \in {R(3)}, k \in (IF good THEN RGoodKey ELSE RKey),
@@ -122,6 +136,10 @@ Sc(s, e, p, x, l) == [Q("scan") EXCEPT !.so = [s |-> s, e |-> e, p |-> p, x |-> 
 Fill == << [Q("put") EXCEPT !.k = <<1>>, !.v = "v1"], [Q("put") EXCEPT !.k = <<1, 2>>, !.v = "v2"],
            [Q("put") EXCEPT !.k = <<1, 2, 1>>, !.v = "v3"], [Q("put") EXCEPT !.k = <<2, 1>>, !.v = "v1"],
            [Q("put") EXCEPT !.k = <<2, 2>>, !.v = "VEMPTY"], [Q("del") EXCEPT !.k = <<2, 1>>] >>
+TxSc(x, a, e, p, f, l) == [Q("txscan") EXCEPT !.h = x, !.so = [s |-> a, e |-> e, p |-> p, x |-> f, l |-> l]]
+P(k, v) == [Q("put") EXCEPT !.k = k, !.v = v]
+EdgeFill == << P(<<2>>, "v1"), P(<<2, 1>>, "v2"), P(<<2, 10>>, "v3"), P(<<2, 11>>, "v1"), P(<<2, 11, 11>>, "v2"), P(<<2, 11, 1>>, "v3"),
+               P(<<11>>, "v1"), P(<<11, 11>>, "VEMPTY"), P(<<3, 11>>, "v2"), P(<<1>>, "v3"), P(KMax, "v1"), [Q("del") EXCEPT !.k = <<2, 11, 1>>] >>
 Scripts == <<
   \* 1: an over-long key in TxGet is rejected and nothing else: the transaction goes on and commits
   << [Q("begin") EXCEPT !.ro = FALSE], Tx("txput", 1, K1, "v1"), Tx("txget", 1, KOver, ""), Tx("txget", 1, K1, ""),
@@ -194,21 +212,45 @@ Scripts == <<
      Q("nodeinfo"), [Q("setro") EXCEPT !.ro = FALSE], Q("nodeinfo"), [Q("put") EXCEPT !.k = K1, !.v = "v2"],
      [Q("setro") EXCEPT !.ro = TRUE], [Q("put") EXCEPT !.k = K1, !.v = "v3"], Q("nodeinfo"), [Q("get") EXCEPT !.k = K1] >>,
   \* 16 (primary): the node says so and takes writes
-  << Q("nodeinfo"), [Q("put") EXCEPT !.k = K1, !.v = "v1"], [Q("get") EXCEPT !.k = K1], Q("nodeinfo") >>
+  << Q("nodeinfo"), [Q("put") EXCEPT !.k = K1, !.v = "v1"], [Q("get") EXCEPT !.k = K1], Q("nodeinfo") >>,
+  \* 17: scans at byte boundaries (binary concretisation: prefixes and bounds ending in 0xFF / 0x00 / 0xFE, a key that is a
+  \* proper prefix of another, start = end, start > end, a prefix longer than every key, end = successor of the prefix),
+  \* outside and inside a transaction with buffered writes
+  EdgeFill \o << Sc(<<>>, <<>>, <<2, 11>>, <<>>, 0), Sc(<<>>, <<>>, <<11>>, <<>>, 0), Sc(<<>>, <<>>, <<2, 11, 11>>, <<>>, 0),
+     Sc(<<>>, <<>>, <<11, 11>>, <<>>, 0), Sc(<<>>, <<>>, <<3, 11>>, <<>>, 1), Sc(<<>>, <<>>, <<2, 11, 11, 11>>, <<>>, 0),
+     Sc(<<>>, <<>>, <<2>>, <<>>, 0), Sc(<<>>, <<>>, <<2, 10>>, <<>>, 0), Sc(<<>>, <<>>, <<1>>, <<>>, 0),
+     Sc(<<>>, <<>>, <<>>, <<11>>, 0), Sc(<<>>, <<>>, <<>>, <<11, 11>>, 0), Sc(<<>>, <<>>, <<>>, <<1>>, 0), Sc(<<>>, <<>>, <<2>>, <<11>>, 0),
+     Sc(<<2, 11>>, <<>>, <<2, 11>>, <<>>, 0), Sc(<<2, 11>>, <<2, 11>>, <<>>, <<>>, 0), Sc(<<2, 11, 11>>, <<2, 11>>, <<>>, <<>>, 0),
+     Sc(<<2>>, <<3>>, <<>>, <<>>, 0), Sc(<<2, 11>>, <<3>>, <<2, 11>>, <<>>, 0), Sc(<<>>, <<2, 11>>, <<2>>, <<>>, 0),
+     Sc(<<2, 10>>, <<2, 11, 11>>, <<>>, <<>>, 0), Sc(<<11>>, <<>>, <<>>, <<>>, 0), Sc(<<>>, <<11>>, <<>>, <<11>>, 0),
+     Sc(<<2, 11, 1>>, <<>>, <<2, 11>>, <<>>, 2), Sc(<<>>, <<2, 1>>, <<>>, <<>>, 0),
+     [Q("begin") EXCEPT !.ro = FALSE], Tx("txput", 1, <<2, 11, 1>>, "v2"), Tx("txdel", 1, <<2, 11>>, ""), Tx("txput", 1, <<11, 11>>, "v3"),
+     TxSc(1, <<>>, <<>>, <<2, 11>>, <<>>, 0), TxSc(1, <<>>, <<>>, <<11>>, <<>>, 0), TxSc(1, <<>>, <<>>, <<2, 11, 11>>, <<>>, 0),
+     TxSc(1, <<2, 11>>, <<3>>, <<>>, <<>>, 0), TxSc(1, <<2, 11>>, <<2, 11>>, <<>>, <<>>, 0), TxSc(1, <<>>, <<>>, <<>>, <<11>>, 0),
+     TxSc(1, <<>>, <<>>, <<2>>, <<1>>, 0), Tx("rollback", 1, <<>>, ""), Sc(<<>>, <<>>, <<2, 11>>, <<>>, 0) >>,
+  \* 18 (+ edge sweep): every combination of the byte-boundary bounds and affixes
+  EdgeFill,
+  \* 19 (+ edge sweep): the same inside a read-write transaction with buffered puts and deletes
+  EdgeFill \o << [Q("begin") EXCEPT !.ro = FALSE], Tx("txput", 1, <<2, 11, 1>>, "v2"), Tx("txdel", 1, <<2, 11>>, ""),
+                 Tx("txput", 1, <<11, 11>>, "v3"), Tx("txdel", 1, <<1>>, "") >>
 >>
-SweepScripts == {11, 12}
+SweepScripts == {11, 12, 18, 19}
+Edgy == sid \in {18, 19}
+SB == IF Edgy THEN EdgeBoundSeq ELSE BoundSeq
+SA == IF Edgy THEN EdgeAffixSeq ELSE AffixSeq
+SL == IF Edgy THEN EdgeLimitSeq ELSE LimitSeq
 
 GScript == /\ Flavour = "script" /\ phase = "run" /\ Len(h) < Len(Scripts[sid])
            /\ Step(Scripts[sid][Len(h) + 1]) /\ UNCHANGED <<phase, sid>>
 
-\* all scan-option combinations in ONE step (a scan changes nothing): 7 x 7 x 5 x 5 x 5 requests
-NSweep == Len(BoundSeq) * Len(BoundSeq) * Len(AffixSeq) * Len(AffixSeq) * Len(LimitSeq)
+\* all scan-option combinations in ONE step (a scan changes nothing): 7 x 7 x 5 x 5 x 5 requests (edge sweeps: 8 x 8 x 8 x 8 x 2)
+NSweep == Len(SB) * Len(SB) * Len(SA) * Len(SA) * Len(SL)
 SweepOpt(i) == LET j == i - 1
-                   nb == Len(BoundSeq)
-                   na == Len(AffixSeq)
-               IN [s |-> BoundSeq[(j % nb) + 1], e |-> BoundSeq[((j \div nb) % nb) + 1],
-                   p |-> AffixSeq[((j \div (nb * nb)) % na) + 1], x |-> AffixSeq[((j \div (nb * nb * na)) % na) + 1],
-                   l |-> LimitSeq[(j \div (nb * nb * na * na)) + 1]]
+                   nb == Len(SB)
+                   na == Len(SA)
+               IN [s |-> SB[(j % nb) + 1], e |-> SB[((j \div nb) % nb) + 1],
+                   p |-> SA[((j \div (nb * nb)) % na) + 1], x |-> SA[((j \div (nb * nb * na)) % na) + 1],
+                   l |-> SL[(j \div (nb * nb * na * na)) + 1]]
 SweepRec(i) == LET so == SweepOpt(i)
                    inTx == OpenHandles # {}
                    x == IF inTx THEN CHOOSE y \in OpenHandles : TRUE ELSE 0
